@@ -118,7 +118,8 @@ impl BranchRule {
             return None;
         }
 
-        let prefix = &self.pattern[..self.pattern.len() - 2];
+        // Keep the slash: "release/*" is about names under "release/", not "releasenotes"
+        let prefix = &self.pattern[..self.pattern.len() - 1];
         if !branch_name.starts_with(prefix) || branch_name.len() == prefix.len() {
             return None;
         }
@@ -231,8 +232,9 @@ impl BranchRule {
             // Universal wildcard: matches any non-empty branch name
             !branch.is_empty()
         } else if self.pattern.ends_with("/*") {
-            // Regular wildcard pattern: "release/*" matches branches
-            let prefix = &self.pattern[..self.pattern.len() - 2];
+            // Regular wildcard pattern: "release/*" matches branches under "release/"
+            // (the slash is part of the prefix, so "releasenotes" or "release-1" do not match)
+            let prefix = &self.pattern[..self.pattern.len() - 1];
             branch.starts_with(prefix) && branch.len() > prefix.len()
         } else {
             // Exact pattern match: "develop" matches only "develop"
